@@ -798,10 +798,11 @@ func collectRaces(r *lib.Run) {
 				// (whether or not a progressWriter sits in between)
 				side = "os/exec-output-copier"
 			} else {
+				// the outermost src/process function of the stack (safeBuffer.Bytes called from ExecWithTimeout is
+				// ExecWithTimeout handing out its buffers)
 				for _, m := range raceFn.FindAllStringSubmatch(part, -1) {
 					if k := strings.Index(m[1], "please/src/process."); k >= 0 {
 						side = m[1][k+len("please/src/"):]
-						break
 					}
 				}
 			}
